@@ -41,3 +41,23 @@ pub open spec fn nominal_is_local(current: Seq<char>, t: Ty) -> bool
         _ => false,
     }
 }
+
+// ---- the gates of define_trait_impl: orphan rule and in-package coherence ----
+#[verifier::external_body] pub struct Diagnostics { _p: u64 }
+impl Diagnostics { pub uninterp spec fn errors(&self) -> nat; }
+#[verifier::external_body] pub fn push_error(d: &mut Diagnostics, msg: String) ensures final(d).errors() == old(d).errors() + 1 { unimplemented!() }   // diagnostics.push(Diagnostic::new(Stage::Typer, Severity::Error, ..))
+#[verifier::external_body] pub fn rt_msg() -> (r: String) { unimplemented!() }
+pub trait VClone: Sized { fn vclone(&self) -> (r: Self) ensures r == *self; }
+impl VClone for String { #[verifier::external_body] fn vclone(&self) -> (r: Self) { unimplemented!() } }
+impl VClone for Ty { #[verifier::external_body] fn vclone(&self) -> (r: Self) { unimplemented!() } }
+// env.current().trait_env.trait_impls: the (trait, type) keys implemented so far in this package
+#[verifier::external_body] pub struct ImplTable { _p: u64 }
+impl ImplTable {
+    pub uninterp spec fn has(&self, tr: Seq<char>, ty: Ty) -> bool;
+    #[verifier::external_body] pub fn contains_key(&self, k: &(String, Ty)) -> (r: bool) ensures r == self.has(k.0@, k.1) { unimplemented!() }
+}
+pub struct TraitEnv { pub trait_impls: ImplTable }
+pub struct PkgEnv { pub trait_env: TraitEnv }
+pub struct PackageTypeEnv { pub package: String, pub cur: PkgEnv }
+impl PackageTypeEnv { pub fn current(&self) -> (r: &PkgEnv) ensures *r == self.cur { &self.cur } }
+
